@@ -150,7 +150,7 @@ int prepare_fragments_for_decode(
                 log_error("Could not allocate data buffer!");
                 return -ENOMEM;
             }
-            *realloc_bm = *realloc_bm | (1 << i);
+            *realloc_bm = *realloc_bm | (1ULL << i);
         } else if (!is_addr_aligned((unsigned long)data[i], 16)) {
             char *tmp_buf = alloc_fragment_buffer(fragment_size - sizeof(fragment_header_t));
             if (NULL == tmp_buf) {
@@ -159,11 +159,11 @@ int prepare_fragments_for_decode(
             }
             memcpy(tmp_buf, data[i], fragment_size);
             data[i] = tmp_buf;
-            *realloc_bm = *realloc_bm | (1 << i);
+            *realloc_bm = *realloc_bm | (1ULL << i);
         }
 
         /* Need to determine the size of the original data */
-       if (((missing_bm & (1 << i)) == 0) && orig_data_size < 0) {
+       if (((missing_bm & (1ULL << i)) == 0) && orig_data_size < 0) {
             orig_data_size = get_orig_data_size(data[i]);
             if (orig_data_size < 0) {
                 log_error("Invalid orig_data_size in fragment header!");
@@ -189,7 +189,7 @@ int prepare_fragments_for_decode(
                 log_error("Could not allocate parity buffer!");
                 return -ENOMEM;
             }
-            *realloc_bm = *realloc_bm | (1 << (k + i));
+            *realloc_bm = *realloc_bm | (1ULL << (k + i));
         } else if (!is_addr_aligned((unsigned long)parity[i], 16)) {
             char *tmp_buf = alloc_fragment_buffer(fragment_size-sizeof(fragment_header_t));
             if (NULL == tmp_buf) {
@@ -198,11 +198,11 @@ int prepare_fragments_for_decode(
             }
             memcpy(tmp_buf, parity[i], fragment_size);
             parity[i] = tmp_buf;
-            *realloc_bm = *realloc_bm | (1 << (k + i));
+            *realloc_bm = *realloc_bm | (1ULL << (k + i));
         }
 
        /* Need to determine the size of the original data */
-       if (((missing_bm & (1 << (k + i))) == 0) && orig_data_size < 0) {
+       if (((missing_bm & (1ULL << (k + i))) == 0) && orig_data_size < 0) {
             orig_data_size = get_orig_data_size(parity[i]);
             if (orig_data_size < 0) {
                 log_error("Invalid orig_data_size in fragment header!");
